@@ -10,6 +10,8 @@ import (
 func init() {
 	vHarnesses["VerifC13File"] = VerifC13File
 	vHarnesses["VerifC13Line"] = VerifC13Line
+	vHarnesses["VerifC13CheckMode"] = VerifC13CheckMode
+	vHarnesses["VerifC13OldValue"] = VerifC13OldValue
 }
 
 const (
@@ -94,4 +96,46 @@ func VerifC13Line() {
 	if !isID && !isTitle && len(strings.TrimSpace(l)) > 0 {
 		vAssert(string(got) == l+"\n", "C13 a line without test_id:/test_title: is left untouched")
 	}
+}
+
+// C13 (--check): on a test file of K menu lines (with or without final newline) `--check` writes nothing and fails exactly
+// when the rewrite would change the file; the rewrite itself stores exactly the renumbered bytes.
+func VerifC13CheckMode() {
+	k := vParam("lines")
+	finalNL := vNondetBool("final_newline")
+	in := ""
+	for i := 0; i < k; i++ {
+		l, _ := c13Pick(i)
+		if i > 0 {
+			in += "\n"
+		}
+		in += l
+	}
+	if finalNL && k > 0 {
+		in += "\n"
+	}
+	path := vTempDir() + "/tests/regression/tests/REQUEST-920/920100.yaml"
+	vWriteFile(path, in)
+	t := NewTestRenumberer()
+	want, errY := t.processYaml("920100", []byte(in))
+	vAssume(errY == nil)
+	github := vNondetBool("github")
+	errCheck := t.processFile(path, true, github)
+	vReach("checked")
+	vAssert(vReadFile(path) == in, "C13 renumber-tests --check writes nothing")
+	vAssert((errCheck != nil) == (string(want) != in), "C13 renumber-tests --check fails exactly when a rewrite would change the file")
+	errWrite := t.processFile(path, false, github)
+	vAssert(errWrite == nil && vReadFile(path) == string(want), "C13 renumber-tests stores exactly the renumbered bytes")
+}
+
+// C13: whatever number (or text) an id line carried before, the n-th test_id is n afterwards: two tests whose old
+// values are arbitrary digit strings (old numbers that start with the right digit, are equal, are swapped, ...).
+func VerifC13OldValue() {
+	a := vNondetStrOf("a", 3, "0123456789")
+	b := vNondetStrOf("b", 3, "0123456789")
+	vAssume(len(a) > 0 && len(b) > 0)
+	in := "  - test_id: " + a + "\n    desc: x\n  - test_id: " + b + "\n"
+	got, err := NewTestRenumberer().processYaml("920100", []byte(in))
+	vReach("processed")
+	vAssert(err == nil && string(got) == "  - test_id: 1\n    desc: x\n  - test_id: 2\n", "C13 the n-th test_id is n whatever value it carried before")
 }
